@@ -149,7 +149,7 @@ func fragmentStops(s, e, f int64, bound int) bool {
 
 func suiteFragmentHuge(R *runner, r *rng) {
 	const bound = 48
-	R.rule(fmt.Sprintf("fragment.huge: start-ordered lists of 1..3 cues with times near the ends of int64 and periods near 2^62, 2^63-1, 2^61 and small ones; a harness-side replay of the loop decides whether every cue's loop stops within %d tests: if so Fragment is called and must agree with the int64 model fragment64 (fuel %d) also when += f wrapped on the way; otherwise Fragment is NOT called (it would not return) and the model must say 'still running' (None) with that fuel; the property's oracle is applied inside the range of C10_int64; non-trivial = some += f wraps", bound, bound+2))
+	R.rule(fmt.Sprintf("fragment.huge: start-ordered lists of 1..3 cues with times near the ends of int64 and periods near 2^62, 2^63-1, 2^61 and small ones; a harness-side replay of the loop decides whether every cue's loop stops within %d tests: if so Fragment is called and must agree with the int64 model fragment64 (fuel %d: the same number of tests) also when += f wrapped on the way; otherwise Fragment is NOT called (it would not return) and the model must say 'still running' (None) with that fuel; the property's oracle is applied inside the range of C10_int64; non-trivial = some += f wraps", bound, bound))
 	N := 3000
 	if R.tier == "thorough" {
 		N = 40000
@@ -171,7 +171,7 @@ func suiteFragmentHuge(R *runner, r *rng) {
 		}
 		u := uidsOf(items)
 		in := &enc{}
-		in.n(bound + 2).i(f)
+		in.n(bound).i(f)
 		encItems(in, items, u)
 		before := snapItems(items)
 		stops, inRange := true, true
